@@ -204,6 +204,10 @@ func judge(r *report.Run, l *sim.Lock, pre *refspec.State, libErr error, panicke
 		for _, e := range eff {
 			r.Hit("effect:" + e)
 		}
+		if len(post.Validators) > 1024 {
+			r.Hit("epoch-boundary-with-registry>1024")
+			r.Class("epoch-boundary-with-registry>1024:" + forkNames[post.Fork])
+		}
 		r.Sample(strings.Join(eff, ","), func() any {
 			return map[string]any{"from_slot": pre.Slot, "to_slot": post.Slot, "fork": forkNames[post.Fork], "effects": eff, "validators": len(post.Validators)}
 		})
@@ -360,7 +364,7 @@ func TestCheck(t *testing.T) {
 		return
 	}
 	r.Mandatory("effect:upgrade-to-altair", "effect:upgrade-to-bellatrix", "effect:upgrade-to-capella", "effect:upgrade-to-deneb",
-		"effect:justified-changed", "effect:finalized-changed", "effect:leak-active", "effect:ejection", "effect:activation", "effect:activation-from-long-queue-not-in-index-order", "effect:zero-effective-balance-inside-upward-margin",
+		"effect:justified-changed", "effect:finalized-changed", "effect:leak-active", "effect:ejection", "effect:activation", "epoch-boundary-with-registry>1024", "effect:activation-from-long-queue-not-in-index-order", "effect:zero-effective-balance-inside-upward-margin",
 		"effect:effective-balance-changed", "effect:historical-append", "effect:eth1-reset", "effect:sync-rotation", "effect:inactivity-score-changed")
 	// ---- class tour: one directed template per mandatory deep class, free details still drawn
 	for ti, tour := range tours {
@@ -517,6 +521,27 @@ var tours = []struct {
 		return cc
 	}},
 	{"deposits-of-every-kind", func(rt *rapid.T) *sim.ChainCase { return sim.TourDeposits(rt, nil) }},
+	{"large-registry", func(rt *rapid.T) *sim.ChainCase {
+		// more than 1024 validators on the official minimal preset (4 committees of ~32 per slot): per-validator loops
+		// beyond their first 1024 iterations, aggregation bitfields longer than 4 bytes, registry-parallel lists of dozens of chunks
+		fork := rapid.SampledFrom([][4]uint64{{farE, farE, farE, farE}, {1, farE, farE, farE}, {1, 1, 2, 2}, {1, 1, 1, 1}}).Draw(rt, "forks")
+		cc := &sim.ChainCase{Profile: "full"}
+		cc.Config = sim.ConfigCase{Family: "minimal", ForkEpochs: fork}
+		n := rapid.SampledFrom([]int{1025, 1030, 1100}).Draw(rt, "n")
+		cc.Genesis = genesisN(rt, n, true)
+		for i := 0; i < n; i += 97 {
+			cc.Genesis.AmountClass[i] = rapid.SampledFrom([]int{0, 4, 5}).Draw(rt, "amount_class")
+		}
+		part := rapid.SampledFrom([]int{1000, 800, 600}).Draw(rt, "part")
+		for s := 1; s <= 20; s++ {
+			if s%5 == 0 {
+				cc.Actions = append(cc.Actions, sim.Action{Kind: "skip", Slots: 1})
+				continue
+			}
+			cc.Actions = append(cc.Actions, sim.Action{Kind: "block", Slots: 1, Plan: fullBlock(rt, part)})
+		}
+		return cc
+	}},
 	{"upgrades-after-sync-rotation", sim.TourUpgradesAfterSyncRotation},
 	{"justification-patterns", sim.TourJustificationPatterns},
 	{"ejection-wave-capped-activation-churn", func(rt *rapid.T) *sim.ChainCase {
